@@ -2,7 +2,8 @@
 (* Monitor for C06: every value found in a numeric variable, array element or   *)
 (* parameter of the running interpreter is a value of the variable's type.      *)
 (* It constrains only what the property says (the value, not the variant tag).   *)
-(* Record: [id, q (declared type of the variable), tag, whole, finite, fits32, v] *)
+(* Record: [id, q (declared type of the variable), tag, whole, finite, fits32, v,  *)
+(*          sx (the value is exactly representable as a SINGLE)]                    *)
 EXTENDS Values, Json, IOUtils, TLC
 
 Recs == ndJsonDeserialize(IOEnv.TRACE)
@@ -15,7 +16,8 @@ Spec == Init /\ [][Next]_idx
 OfType(r) ==
   CASE r.q = "I" -> r.whole /\ r.fits32 /\ InRange("I", r.v)
     [] r.q = "L" -> r.whole /\ r.fits32 /\ InRange("L", r.v)
-    [] r.q \in {"S", "D"} -> r.finite
+    [] r.q = "S" -> r.finite /\ r.sx          \* a SINGLE variable holds a SINGLE value, not a wider one
+    [] r.q = "D" -> r.finite
     [] OTHER -> TRUE
 
 Verdict == IF OfType(Recs[idx]) THEN TRUE ELSE PrintT("MISMATCH " \o ToString(Recs[idx].id))
